@@ -142,6 +142,50 @@ WHAT.update({
  "W2C20_B": ("C20", "advance_time clears (start_index - 1) % num_cols in unsigned arithmetic", "a queue of 3 slots that wraps with an entry pending"),
 })
 
+# third wave: authors asked for hard-to-notice changes (cooperating sites, rare branches, call sequences, corners)
+WHAT.update({
+ "W3C01_A": ("C01", "Propensity.get_stochastic_volume_propensity (base class) falls back to the volume-free stochastic form", "constitutive or Hill reaction, stochastic+volume mode, V != 1"),
+ "W3C01_B": ("C01", "MassActionPropensity.initialize merges repeated reactants only when adjacent (A*B*A)", "order >= 3 with a repeated species separated by another one, stochastic modes"),
+ "W3C02_A": ("C02", "restore_binary_term maps 'MinTerm' to MaxTerm (pickled copies evaluate min as max)", "a min(...) in an expression of a model that went through pickle / deepcopy"),
+ "W3C02_B": ("C02", "create_rule gives the last parameter symbol of a species-targeted rule a placeholder value 0", "an undeclared name that comes last in the rule's right-hand side"),
+ "W3C03_A": ("C03", "create_reaction builds the delayed-product coefficient from the immediate update dict", "a delayed product that repeats, is also a delayed reactant, or changes immediately in the same reaction"),
+ "W3C03_B": ("C03", "prep_deterministic_simulation no longer clears its compressed stoichiometry (allocate-once guard)", "the same interface prepared more than once"),
+ "W3C04_A": ("C04", "prep_deterministic_simulation uses vector.resize (rows kept, entries appended again)", "one interface passed to py_simulate_model more than once"),
+ "W3C04_B": ("C04", "the mxstep retry branch rebinds the interface's parameter array to a private copy", "a run that needs > 500 steps between two points, then Model.set_params and the same interface again"),
+ "W3C05_A": ("C05", "MassActionPropensity.get_stochastic_propensity returns 0 when count == multiplicity (<= instead of <)", "order >= 3 mass action with a reactant at exactly its multiplicity"),
+ "W3C05_B": ("C05", "safe interface resets its 'under-supplied' flag once per call instead of once per reaction", "safe mode, >= 2 reactions, an earlier-listed reaction depleted while a later one is enabled"),
+ "W3C06_A": ("C06", "VolumeSSASimulator adds the delayed stoichiometry only if requires_delay() (never true)", "a delay model simulated with the volume simulator"),
+ "W3C06_B": ("C06", "safe interface resets its 'under-supplied' flag once per call (as W3C05_B)", "safe mode, >= 2 reactions, a reaction that runs dry before a later-listed one"),
+ "W3C07_A": ("C07", "py_simulate_model tests `volume is False / is True` (numpy booleans fall through)", "the volume flag given as a numpy boolean"),
+ "W3C07_B": ("C07", "c_repeat_rules cleared in create_rule instead of _create_vectors (rules registered again on re-initialisation)", "a model with rules initialised a second time"),
+ "W3C08_A": ("C08", "check_species rebinds species_values on every initialisation (interfaces keep the old array)", "interface built, py_initialize again, set_species, simulate through the old interface"),
+ "W3C08_B": ("C08", "py_simulate_model caches one simulator object per kind (atol / rtol keywords stick)", "a deterministic call with its own tolerances, then a later call without"),
+ "W3C09_A": ("C09", "LineageModel constructor: a 2-tuple rule inherits the frequency of the preceding 3-tuple", "LineageModel built with a list mixing (type, attrs, freq) and (type, attrs) rules"),
+ "W3C09_B": ("C09", "scheduled rules fire whenever |t - T| < dt/2 instead of at t == T", "a reaction within half a grid step of the scheduled time"),
+ "W3C10_A": ("C10", "SSASimulator adds the delayed stoichiometry into the model's shared update array in place", "a delay model simulated with the plain SSA and then simulated again"),
+ "W3C10_B": ("C10", "ArrayDelayQueue.set_current_time resets start_index", "a run continued with the delay queue of a previous result"),
+ "W3C11_A": ("C11", "MaxTerm.volume_evaluate evaluates its 2nd and later arguments without the volume", "a general rate with volume inside a non-first argument of max(...), V != 1"),
+ "W3C11_B": ("C11", "VolumeSSASimulator checks division with the volume before the step (one tick late)", "a volume-threshold (state dependent) volume model"),
+ "W3C12_A": ("C12", "import: delayed reactant/product lists leak from one delayed reaction to the next when empty", "two adjacent delayed reactions, the later with an empty delayed list"),
+ "W3C12_B": ("C12", "generate_sbml_model caches documents, invalidated by structural edits only", "write, change a value with a setter, write again"),
+ "W3C13_A": ("C13", "assignment rules whose right-hand side names no species are imported with frequency 'start'", "a species-free rule right-hand side"),
+ "W3C13_B": ("C13", "rule_rxn no longer reset per rule (rate reaction re-appended by later assignment rules)", "an assignment rule listed after a rate rule"),
+ "W3C14_A": ("C14", "write_sbml_model no longer forwards stochastic_model", "a stochastic export written to a file, mass action with multiplicity >= 2"),
+ "W3C14_B": ("C14", "create_reaction writes the default 'species' string into the caller's dict (copy moved down)", "one dict object shared by several mass-action reactions"),
+ "W3C15_A": ("C15", "get_initial_state uses row 0 when Nx0 == 1 (Nx0 is overwritten when no parameter conditions are given)", ">= 2 trajectories with different initial conditions and no parameter conditions"),
+ "W3C15_B": ("C15", "per-trajectory reset restores only the current trajectory's condition keys", "parameter conditions with differing key sets"),
+ "W3C16_A": ("C16", "with log_space_parameters the prior is checked on log(theta) instead of theta", "log_space_parameters=True through get_likelihood_function"),
+ "W3C16_B": ("C16", "beta prior normalised with gamma(a+b)/(gamma(a)gamma(b)) (overflows above 171)", "beta prior with a + b > 171"),
+ "W3C17_A": ("C17", "Model.__getstate__ de-duplicates delay objects by equality (which compares the type only)", ">= 2 delays of the same type with different parameters"),
+ "W3C17_B": ("C17", "LineageModel.__setstate__ takes its event / rule counters from the rebuilt vectors", "a lineage model initialised twice, then copied"),
+ "W3C18_A": ("C18", "compute_Zj applies assignment rules once, before perturbing the parameter", "a repeated assignment rule whose right-hand side contains the parameter"),
+ "W3C18_B": ("C18", "compute_J evaluates the unperturbed point without the time argument", "time-dependent rate, time != 0, forward or backward difference"),
+ "W3C19_A": ("C19", "GeneralVolumeSplitter.py_set_partitioning clears each index vector only when its key is present", "the same splitter configured twice, the second time without a 'perfect' entry"),
+ "W3C19_B": ("C19", "LineageVolumeSplitter skips perfect species when the first daughter's integer share is 0 (left duplicated)", "a 'perfect' species with a single copy (p*n < 1)"),
+ "W3C20_A": ("C20", "add_reaction clamps with an unsigned local (negative index becomes the last slot)", "a requested time more than 1.5 steps in the past"),
+ "W3C20_B": ("C20", "binomial_partition walks num_cols - 1 slots (skips the horizon slot)", "an entry pending in the last slot when the queue is partitioned"),
+})
+
 
 def parse_log(path):
     confirm, runs = {}, {}
